@@ -46,7 +46,8 @@ def cells(tier):
 @st.composite
 def cell_cases(draw, cell):
     route, domain, method, strict = cell
-    return {"cell": cell, "lb": draw(st.sampled_from([None, -2, 0, 1])), "ub": draw(st.sampled_from([None, 5, 3, 8])),
+    return {"cell": cell, "lb": draw(st.sampled_from([None, -2, 0, 1, 0.5, -1.5])), "ub": draw(st.sampled_from([None, 5, 3, 8, 2.5, 3.7])),
+            "only_view": draw(st.integers(0, 2)) == 0,
             "family": "lp" if method in LP_ONLY else draw(st.sampled_from(["lp", "qp"])),
             "where": draw(st.sampled_from(["objective", "constraint", "both"])),
             "coef": [draw(st.sampled_from([1, 2, -1, 3])) for _ in range(4)],
@@ -63,7 +64,14 @@ def sample_repr(case):
 
 
 def declare(route, domain, lb, ub):
-    """(handle elements as list[Variable], all view objects to inspect for bounds)"""
+    """(handle elements as list[Variable], all view objects to inspect for bounds); `declare.handle` = the vector-shaped
+    view object itself when the route yields one (else None)"""
+    declare.handle = None
+    out = _declare(route, domain, lb, ub)
+    return out
+
+
+def _declare(route, domain, lb, ub):
     from optyx import MatrixVariable, Variable, VectorVariable, diag, diag_matrix
     kw = dict(lb=lb, ub=ub, domain=domain)
     if route == "Variable":
@@ -71,6 +79,7 @@ def declare(route, domain, lb, ub):
         return [v], [[v]]
     if route == "VectorVariable":
         x = VectorVariable("d", 3, **kw)
+        declare.handle = x
         return list(x), [list(x)]
     if route == "from_numpy":
         x = VectorVariable.from_numpy("d", np.zeros(3), **kw)
@@ -78,10 +87,12 @@ def declare(route, domain, lb, ub):
     if route == "slice":
         x = VectorVariable("d", 4, **kw)
         h = x[1:3]
+        declare.handle = h
         return list(h), [list(h), list(x)]
     if route == "reversed":
         x = VectorVariable("d", 3, **kw)
         h = x[::-1]
+        declare.handle = h
         return list(h), [list(h)]
     if route == "diag_matrix":
         x = VectorVariable("d", 2, **kw)
@@ -108,6 +119,7 @@ def declare(route, domain, lb, ub):
         h = A.diagonal()
     else:
         h = diag(A)
+    declare.handle = h
     return list(h), [list(h)]
 
 
@@ -128,6 +140,17 @@ def build(case, continuous=False):
     z = Variable("z", lb=0, ub=5)
     c, t = case["coef"], case["target"]
     P = Problem()
+    h = declare.handle
+    boxed = domain == "binary" or (case["lb"] is not None and case["ub"] is not None)   # same decision for the continuous copy
+    if case.get("only_view") and h is not None and boxed:
+        # the WHOLE model is written over one vector-shaped view object (nothing else): optyx's single-vector shortcut applies
+        if case["family"] == "lp":
+            obj = np.array([float(c[k % 4]) for k in range(len(els))]) @ h
+        else:
+            obj = h.dot(h) - np.array([float(t[k % 4]) for k in range(len(els))]) @ h
+        (P.minimize if case["sense"] == "minimize" or case["family"] != "lp" else P.maximize)(obj)
+        P.subject_to(h.sum() <= 50)
+        return P, els, views, list(els)
     in_obj = case["where"] in ("objective", "both")
     in_con = case["where"] in ("constraint", "both")
     if case["family"] == "lp":
